@@ -68,14 +68,14 @@ func (fi *FuncInfo) outerLoopOf(b *ssa.BasicBlock) *Loop {
 
 // ScanLoop describes a position-scanning loop.
 type ScanLoop struct {
-	Fn    *ssa.Function
-	fi    *FuncInfo
-	L     *Loop
-	P     *ssa.Phi // position
-	Bound Lin      // loop continues while P < Bound
+	Fn     *ssa.Function
+	fi     *FuncInfo
+	L      *Loop
+	P      *ssa.Phi // position
+	Bound  Lin      // loop continues while P < Bound
 	BoundV ssa.Value
-	Emits []*Emit
-	Key   string
+	Emits  []*Emit
+	Key    string
 }
 
 // scanLoops finds, for every function with emission sites, the outermost
@@ -397,18 +397,18 @@ func dedup(ss []string) []string {
 // ---------------------------------------------------------------- GSAP role
 
 type gsapInfo struct {
-	p     *Parser
-	scan  *ScanLoop
-	fi    *FuncInfo
-	err   string
-	isaF  *types.Var // field holding the inverse suffix array
-	saF   *types.Var
-	rank  ssa.Value // j = int(isa[P]) in the scan loop
-	ins   *ssa.Call // insert(rank) in the scan loop header body
-	insFn *ssa.Function
-	qs    []*ssa.Call // neighbour queries (int, bool) with argument rank
-	setF  *types.Var  // field holding the search set
-	sortC *ssa.Call   // call in Parse of the rebuild function
+	p      *Parser
+	scan   *ScanLoop
+	fi     *FuncInfo
+	err    string
+	isaF   *types.Var // field holding the inverse suffix array
+	saF    *types.Var
+	rank   ssa.Value // j = int(isa[P]) in the scan loop
+	ins    *ssa.Call // insert(rank) in the scan loop header body
+	insFn  *ssa.Function
+	qs     []*ssa.Call // neighbour queries (int, bool) with argument rank
+	setF   *types.Var  // field holding the search set
+	sortC  *ssa.Call   // call in Parse of the rebuild function
 	sortFn *ssa.Function
 }
 
